@@ -377,6 +377,10 @@ func genHalfClose(r *hx.Rand, id string, k int) HttpInput {
 //
 //	how = "fin" / "rst":  the backend closes / resets its connection after reply n (with and
 //	                       without "Connection: close" in that reply); request n+1 is fine
+//	how = "noreply" / "garbage" / "cutreply": request n+1 is fine and reaches the backend in
+//	                       full; the backend then closes without a reply / answers bytes that
+//	                       are not an HTTP reply / closes inside the reply's header block.
+//	                       The request was relayed: it must have its event all the same
 //	how = "bad":           request n+1 is malformed (incl. a stray CRLF after a body)
 //	how = "cut":           request n+1 is incomplete: the client stops after `cutAt` bytes of it
 func genNextFails(r *hx.Rand, id string, how string, mode int, cutAt int) HttpInput {
@@ -410,6 +414,21 @@ func genNextFails(r *hx.Rand, id string, how string, mode int, cutAt int) HttpIn
 	switch how {
 	case "fin", "rst":
 		next = genRequest(r, id, true, false).raw
+	case "noreply", "garbage", "cutreply":
+		g := genRequest(r, id, true, false)
+		next = g.raw
+		rep := HReply{Close: "fin"}
+		switch how {
+		case "garbage":
+			rep.Raw = hx.B("\x00\x01\x02 this is not http\r\nat all\r\n\r\n")
+			rep.Cuts = []int{len(rep.Raw)}
+		case "cutreply":
+			full := genReply(r, g.method, true).Raw
+			hdr := strings.Index(string(full), "\r\n\r\n")
+			rep.Raw = full[:r.Range(1, hdr+2)]
+			rep.Cuts = []int{len(rep.Raw)}
+		}
+		in.Replies = append(in.Replies, rep)
 	case "bad":
 		if mode%2 == 1 {
 			next = []byte("\r\n")
@@ -492,6 +511,8 @@ type httpEnv struct {
 	be      *httpBackend
 	port    int // proxy port with the director that names host:port
 	portNP  int // proxy port whose director has no port (= port of the backend on 127.0.0.2)
+	portNP2 int // a second such port (same service, same director instance)
+	portBE  int // the backend port that the directors with a port name
 	decoy   *decoy
 	seq     int32
 	idleDur time.Duration
@@ -537,6 +558,9 @@ func (e *httpEnv) run(in HttpInput, id string) (HttpObs, string) {
 	lport := e.port
 	if in.NoPort {
 		lport = e.portNP
+		if n%2 == 1 {
+			lport = e.portNP2 // the director instance is shared by both ports: each connection must reach ITS port
+		}
 	}
 	if in.Shared && !in.NoPort {
 		lport = 8081
@@ -666,6 +690,14 @@ loop:
 			ob.BGarbage = true
 		}
 		if ta, ok := c.peer.(*net.TCPAddr); !ok || !ta.IP.IsLoopback() {
+			ob.BPeersOK = false
+		}
+		// ... and on the backend address this connection's director and local port imply
+		wantPort := e.portBE
+		if in.NoPort {
+			wantPort = lport
+		}
+		if la, ok := c.local.(*net.TCPAddr); !ok || la.Port != wantPort {
 			ob.BPeersOK = false
 		}
 	}
